@@ -337,6 +337,64 @@ def check(rng, override=None):
     return out, n
 
 
+UNREACHED_SRC = """from sequence_jacobian import simple
+
+@simple
+def eq_a(u1, u2):
+    t1 = u1 + 2 * u2(-1) - 3          # involves the unknowns only: no exogenous input reaches this target
+    return t1
+
+@simple
+def eq_b(u1, u2, z):
+    t2 = 3 * u2 - u1(+1) + z - 2
+    y = u1 + u2 + z(-1)
+    return t2, y
+"""
+
+
+def unreached_first_target():
+    """two unknown/target pairs where the exogenous input reaches only the target listed SECOND (the first target's equation involves unknowns only): flat solve_jacobian in both target orders,
+    with and without a supplied factorisation, vs a dense hand-made solve, vs the model with either pair moved into a solved block"""
+    import os, sys, importlib
+    from sequence_jacobian import combine
+    from sequence_jacobian.classes import FactoredJacobianDict
+    d = os.path.join(C.WORK, 'models')
+    os.makedirs(d, exist_ok=True)
+    with open(os.path.join(d, 'verif_c11_unreached.py'), 'w') as f:
+        f.write(UNREACHED_SRC)
+    if d not in sys.path:
+        sys.path.insert(0, d)
+    importlib.invalidate_caches()
+    sys.modules.pop('verif_c11_unreached', None)
+    m = importlib.import_module('verif_c11_unreached')
+    out, n, T = [], 0, 6
+    flat = combine([m.eq_a, m.eq_b], name='uf')
+    ss = flat.steady_state(dict(u1=1.0, u2=1.0, z=0.0))
+    U = ['u1', 'u2']
+    HU = {tg: flat.jacobian(ss, U, [tg], T=T) for tg in ('t1', 't2')}
+    dn = lambda J, o, i: M.dense(J[o][i], T) if o in J.outputs and i in J.nesteddict[o] else np.zeros((T, T))
+    Hd = np.block([[dn(HU[tg], tg, u) for u in U] for tg in ('t1', 't2')])
+    Hz = np.vstack([np.zeros((T, T)), np.eye(T)])
+    want = -np.linalg.solve(Hd, Hz)
+    ref = {'u1': want[:T], 'u2': want[T:]}
+    forms = [('targets [t1, t2]', lambda: flat.solve_jacobian(ss, U, ['t1', 't2'], ['z'], T=T)),
+             ('targets [t2, t1]', lambda: flat.solve_jacobian(ss, U, ['t2', 't1'], ['z'], T=T)),
+             ('targets [t1, t2], supplied factorisation', lambda: flat.solve_jacobian(ss, U, ['t1', 't2'], ['z'], T=T, H_U_factored=FactoredJacobianDict(flat.jacobian(ss, U, ['t1', 't2'], T=T), T))),
+             ('pair 1 in a solved block', lambda: combine([m.eq_a.solved(unknowns={'u1': (-50.0, 50.0)}, targets=['t1'], solver='brentq', name='sa'), m.eq_b], name='un1').solve_jacobian(ss, ['u2'], ['t2'], ['z'], T=T)),
+             ('pair 2 in a solved block', lambda: combine([m.eq_a, combine([m.eq_b], name='ib').solved(unknowns={'u2': (-50.0, 50.0)}, targets=['t2'], solver='brentq', name='sb')], name='un2').solve_jacobian(ss, ['u1'], ['t1'], ['z'], T=T))]
+    for label, f in forms:
+        n += 1
+        try:
+            G = f()
+            bad = [u for u in U if u not in G.outputs or 'z' not in G.nesteddict[u] or np.abs(M.dense(G[u]['z'], T) - ref[u]).max() > 1e-9]
+        except Exception as ex:
+            bad = [f'raised {type(ex).__name__}: {str(ex)[:120]}']
+        if bad:
+            C.push(out, dict(what='general-equilibrium Jacobian when the exogenous input reaches only the target listed second differs from the dense solve of the stacked system', input=dict(kind='unreached-first-target', form=label),
+                             observed=bad[:3], signature=dict(op='unreached-first-target', form=label)))
+    return out, n
+
+
 def unaffected_inner_output():
     """D29: a solved block one of whose inner blocks reads only names that are never shocked (a parameter): its output is an output of the solved block that no input or unknown
     affects.  The nested model must give the Jacobians and the nonlinear path of the flat model (the inner output simply has no Jacobian)."""
@@ -400,6 +458,8 @@ def oracle(ctx, hints, broken):
         n += 1
         if v0:
             viol.append(v0)
+        vu, nu = unreached_first_target()
+        viol, n = viol + vu, n + nu
         v3, n3 = M.check_shift_ge(ctx['rng'], 8 if ctx['tier'] == 'quick' and not broken else 50, True, 'c11')
         viol, n = viol + v3, n + n3
         skipped = 0
@@ -429,5 +489,8 @@ def oracle(ctx, hints, broken):
 def replay(rp):
     if (rp.get('input') or {}).get('kind') == 'unaffected-inner-output':
         return unaffected_inner_output()
+    if (rp.get('input') or {}).get('kind') == 'unreached-first-target':
+        v = [x for x in unreached_first_target()[0] if x['input'].get('form') == rp['input'].get('form')]
+        return v[0] if v else None
     v = check(C.Rng(0), (rp.get('input') or {}).get('calib_override'))[0]
     return v[0] if v else None
